@@ -201,6 +201,41 @@ func c35(c *core.Ctx) {
 			}
 		}
 		c.Ob("C35.close", fname(sbClose)+"·delete session", c.P.Pos(sbClose.Pos()), del && sameKey, "deletes from sessionBroker.s: "+boolStr(del)+"; same key function as the lookup ("+lookupKey+"): "+boolStr(sameKey))
+		// the table is keyed by the authentication token at insertion: every caller of the lookup and of Close passes an
+		// authentication token (RequestHeader.AuthenticationToken or session.AuthTokenID), never another NodeID such as
+		// the session id — Close under a key the table does not contain deletes nothing and answers Good
+		{
+			tokClass := map[*types.Var]bool{}
+			for _, f := range [][3]string{{"ua", "RequestHeader", "AuthenticationToken"}, {"server", "session", "AuthTokenID"}} {
+				if v := field(c, f[0], f[1], f[2]); v != nil {
+					tokClass[v] = true
+				}
+			}
+			cg := c.P.CallGraph()
+			for _, callee := range []*ssa.Function{sbClose, sbSession} {
+				co := callee.Object().(*types.Func)
+				for _, f := range libFns(c, "server") {
+					for _, call := range ssax.CallsTo(f, co) {
+						args := call.Common().Args
+						arg := args[len(args)-1]
+						var good, bad []string
+						for _, o := range ssax.Origins(arg, cg, c.Depth) {
+							if o.Field != nil && tokClass[o.Field] {
+								good = append(good, ssax.FieldString(o.Field))
+							} else {
+								bad = append(bad, o.String())
+							}
+						}
+						ok := len(bad) == 0 && len(good) > 0
+						d := "key from " + strings.Join(uniq(good), ", ")
+						if !ok {
+							d = "the key is not an authentication token: " + strings.Join(uniq(bad), ", ") + " — the table is keyed by AuthTokenID.String()"
+						}
+						c.Ob("C35.close", fname(f)+"·"+callee.Name()+"(key)", pos(c, call), ok, d)
+					}
+				}
+			}
+		}
 		// CloseSession handler calls it with the request's token
 		cs := fn(c, "server", "SessionService", "CloseSession")
 		if cs != nil {
@@ -386,9 +421,35 @@ func c32(c *core.Ctx) {
 			}
 		}
 		for _, e := range effects {
+			// the lookup the effect is about: keyed by the id the effect is applied to (go Delete…(id)), or the one
+			// the modified object came from (store); nil for insertions
+			var about []*ssa.Lookup
+			if g, isGo := e.in.(*ssa.Go); isGo {
+				args := g.Call.Args
+				idp := ssax.Path(args[len(args)-1])
+				want := items
+				if ssax.Callee(g) == delSub {
+					want = subs
+				}
+				for _, lk := range lookups {
+					if loadedField(lk.X).f == want && (lk.Index == args[len(args)-1] || ssax.Path(lk.Index) == idp) {
+						about = append(about, lk)
+					}
+				}
+			} else if e.obj != nil {
+				for _, lk := range lookups {
+					if rootedAt(e.obj, lk) {
+						about = append(about, lk)
+					}
+				}
+			}
+			considered := lookups
+			if _, isIns := e.in.(*ssa.MapUpdate); !isIns {
+				considered = about
+			}
 			okLookup := false
 			trues, _ := ssax.BoolFactsAt(e.in)
-			for _, lk := range lookups {
+			for _, lk := range considered {
 				for _, v := range trues {
 					if ex, ok := v.(*ssa.Extract); ok && ex.Tuple == ssa.Value(lk) && ex.Index == 1 {
 						okLookup = true
@@ -401,13 +462,54 @@ func c32(c *core.Ctx) {
 					continue
 				}
 				if tokenString(f.X, authTok) && tokenString(f.Y, authTok) {
-					owner = true
+					// one side must be the owner of the very object the effect is about
+					for _, lk := range considered {
+						if tokenRootedAt(f.X, lk) || tokenRootedAt(f.Y, lk) {
+							owner = true
+						}
+					}
 				}
 			}
 			ok := okLookup && owner
-			c.Ob("C32.owner", fname(h)+"·"+e.what, pos(c, e.in), ok, "dominated by lookup ok: "+boolStr(okLookup)+"; dominated by session-token equality: "+boolStr(owner))
+			c.Ob("C32.owner", fname(h)+"·"+e.what, pos(c, e.in), ok, "dominated by the ok edge of the lookup of the object concerned: "+boolStr(okLookup)+"; dominated by equality of the caller's token with that object's owner token: "+boolStr(owner))
 		}
 	}
+}
+
+// rootedAt: v is the looked-up value of lk or is loaded from it through a chain of field loads.
+func rootedAt(v ssa.Value, lk *ssa.Lookup) bool {
+	for i := 0; i < 8; i++ {
+		v = ssax.Strip(v)
+		if ex, ok := v.(*ssa.Extract); ok && ex.Tuple == ssa.Value(lk) {
+			return true
+		}
+		if v == ssa.Value(lk) {
+			return true
+		}
+		for _, o := range ssax.Origins(v, nil, 0) {
+			if ex, ok := o.Other.(*ssa.Extract); ok && ex.Tuple == ssa.Value(lk) {
+				return true
+			}
+			if o.Other == ssa.Value(lk) {
+				return true
+			}
+		}
+		ld := loadedField(v)
+		if ld.f == nil {
+			return false
+		}
+		v = ld.base
+	}
+	return false
+}
+
+// tokenRootedAt: v is <object of lk>.….AuthTokenID(.String()).
+func tokenRootedAt(v ssa.Value, lk *ssa.Lookup) bool {
+	v = ssax.Strip(v)
+	if call, ok := v.(*ssa.Call); ok && len(call.Call.Args) > 0 {
+		v = call.Call.Args[0]
+	}
+	return rootedAt(v, lk)
 }
 
 // tokenString: v is X.AuthTokenID.String() (or a load of AuthTokenID).
